@@ -582,9 +582,9 @@ def run(tier, seed):
                 "second 60 refused or consistent, time-only literals in named zones on daylight-saving days, duration - date, "
                 "rfc3339 for zones with second offsets; non-trivial = distinct (literal form, duration unit, sub-ms/sub-s/whole, sign) classes")
     run.assumptions = ["clock pinned at 2020-09-13T12:26:40Z; the sandbox's local zone is UTC",
-                       "named-zone conversions are judged on instants from 1972 on (earlier local-mean-time offsets "
-                       "are not representable in rfc3339); named zones inside literals, ISO-week and year-less patterns "
-                       "are not generated (they do not describe a single instant without further conventions)",
+                       "random named-zone conversions and named zones inside literals are judged with the system tz database on "
+                       "instants from 1972 on; six historic zones with second-valued offsets are judged on the rfc3339 field alone; "
+                       "ISO-week and year-less patterns are not generated (they can never produce a date: DESIGN section 9)",
                        "durations are whole nanoseconds and results stay within years 0001-9999"]
     n = 12000 if tier == "quick" else 400000
     per = nproc()
